@@ -84,6 +84,11 @@ func (ex *Exec) verifyTop() {
 	if len(fn.FreeVars) > 0 {
 		panic(unsupported("closure %s verified on its own", fn))
 	}
+	if usesRecover(fn) {
+		r := vc.declare("p!recovered", SIface)
+		ex.typeFacts(r, types.NewInterfaceType(nil, nil), st)
+		ex.topRecovered = &r
+	}
 	entry := st.clone()
 	envPre := &SpecEnv{vars: fr.params, st: entry, lst: entry, pkg: fn.Pkg.Pkg, topOld: entry.top}
 	envPre.old = envPre
@@ -122,6 +127,26 @@ func (ex *Exec) verifyTop() {
 	// panics
 	for _, p := range fr.panics {
 		if c.MayPanic {
+			continue
+		}
+		if c.Throws {
+			// error-valued panics are part of the contract; anything else must be unreachable
+			pv := ex.scalar(p.val)
+			ex.noteIface(errorType)
+			ex.noteIface(ex.runtimeErrorType())
+			isErr := And(ex.implementsTerm(IfDyn(pv), errorType), Not(ex.implementsTerm(IfDyn(pv), ex.runtimeErrorType())), Neq(IfVal(pv), IntLit(0)))
+			o := vc.oblige("panic", "panic-is-error:"+strings.Trim(p.text, "\""), p.cond, isErr, p.where)
+			o.Descr = "a panic leaving this function carries an error value (not a runtime.Error, not a string)"
+			continue
+		}
+		if len(c.Panics) > 0 {
+			env := &SpecEnv{vars: fr.params, st: p.st, lst: p.st, pkg: fn.Pkg.Pkg, old: envPre, topOld: entry.top}
+			var conds []Term
+			for _, pc := range c.Panics {
+				conds = append(conds, ex.evalBool(pc.E, env))
+			}
+			o := vc.oblige("panic", "panic-allowed:"+strings.Trim(p.text, "\""), p.cond, Or(conds...), p.where)
+			o.Descr = "an explicit panic happens only under the conditions the contract lists"
 			continue
 		}
 		name := "panic:" + strings.Trim(p.text, "\"")
@@ -398,4 +423,17 @@ func (ex *Exec) emitAxioms(env *SpecEnv) {
 		}
 	}
 	vc.lines = savedLines
+}
+
+func usesRecover(fn *ssa.Function) bool {
+	for _, b := range fn.Blocks {
+		for _, in := range b.Instrs {
+			if c, ok := in.(*ssa.Call); ok {
+				if bi, ok := c.Call.Value.(*ssa.Builtin); ok && bi.Name() == "recover" {
+					return true
+				}
+			}
+		}
+	}
+	return false
 }
